@@ -211,8 +211,16 @@ size_t vf_tr_strlen(const char* s) {
 /* ------------------------------------------------------------------ allocator */
 static int fail_nth[VS_MAXT];
 void vs_fail_nth(int tid, int n) { fail_nth[tid] = n; }
+static bool refuse_frozen;
+static uint64_t frozen_requests;
+void vs_refuse_while_frozen(bool on) { refuse_frozen = on; }
+uint64_t vs_requests_while_frozen(void) { return frozen_requests; }
 void* vs_malloc(size_t n) {
   if (cur >= 0 && fail_nth[cur] > 0 && --fail_nth[cur] == 0) return NULL; /* thread-private fault injection */
+  if (cur < 0 && redirect_scratch) { /* main context while the shared arena is frozen: a request made by the operation under observation */
+    frozen_requests++;
+    if (refuse_frozen) return NULL;
+  }
   /* layout: [size_t n][pad to 16][user...] */
   unsigned char* base; size_t* off;
   if (cur >= 0) { base = arena[cur]; off = &aoff[cur]; }
